@@ -139,6 +139,9 @@ def showPayload (r : Rec) : String :=
 
 def showRec (r : Rec) : String := s!"{r.key}~{showMeta r.md}~{showPayload r}"
 
+/-- The database API's JSON rendering is compared on key and data only. -/
+def showRecNoMeta (r : Rec) : String := s!"{r.key}~{showPayload r}"
+
 /-! ### conditions -/
 
 def parseCmp (s : String) : Option Cmp :=
@@ -303,7 +306,9 @@ def handle (s : Sys) (line : String) : Sys × String :=
   match (line.splitOn " ").filter (· ≠ "") with
   | ["cfg", b, sh] =>
     (match parseBackend b, parseBool sh with
-     | some b, some sh => ({ cfg := { backend := b, shadow := sh } }, "ok")
+     | some b, some sh =>
+       -- the database API opens its interface with `NewInterface(nil)`: neither local nor internal, no cache
+       ({ cfg := { backend := b, shadow := sh }, ifs := [{ id := "@api", opts := { loc := false, int := false } }] }, "ok")
      | _, _ => (s, "bad-op"))
   | ["if", id, l, i, c, ms, mj, rel, abs] =>
     (match parseBool l, parseBool i, parseCache c, parseBool ms, parseBool mj, rel.toInt?, parseTs abs with
@@ -370,6 +375,45 @@ def handle (s : Sys) (line : String) : Sys × String :=
     -- the iterator hand-over: the consumer drains all n records and then sees the producer's error
     (match n.toNat?, parseBool e with
      | some n, some e => (s, s!"ok {n} err=" ++ (if e then "E" else "nil"))
+     | _, _ => (s, "bad-op"))
+  | ["rtinit"] => (s, "ok")
+  | ["rtput", k, f, m, p] =>
+    -- a record an injected runtime provider hands out as it is (no `Apply`, no storage representation)
+    (match parseRec k f m p with
+     | some r => ({ s with store := s.store.put r }, "ok")
+     | none => (s, "bad-op"))
+  | ["api", "get", k] =>
+    (match s.iface "@api" with
+     | some i =>
+       (match (getRecord s.cfg i.opts { store := s.store } k T).1 with
+        | .ok r => if r.form = .raw then (s, "err-format") else (s, "ok " ++ showRecNoMeta r)
+        | .error e => (s, errStr e))
+     | none => (s, "bad-op"))
+  | ["api", "query", p, c] =>
+    (match s.iface "@api", parseQuery p c with
+     | some i, some q =>
+       (match (ifQuery i.opts { store := s.store } q T).2 with
+        | .recs rs =>
+          let l := (sortRecs (rs.filter (fun r => r.form != .raw))).map showRecNoMeta
+          (s, (if l.isEmpty then "ok 0" else s!"ok {l.length} " ++ " ".intercalate l) ++ " err=nil")
+        | o => (s, showOut o))
+     | _, _ => (s, "bad-op"))
+  | ["api", "create", k, p] =>
+    (match parseRec k "J" "0,0,0,0,0,0" p with | some r => s.exec "@api" (.putNew r) | none => (s, "bad-op"))
+  | ["api", "update", k, p] =>
+    (match parseRec k "J" "0,0,0,0,0,0" p with | some r => s.exec "@api" (.put r) | none => (s, "bad-op"))
+  | ["api", "delete", k] => s.exec "@api" (.delete k)
+  | ["api", "insert", k, a, p] =>
+    -- handleInsert: Get, accessor Set (JSON numbers arrive as float64), Put
+    (match s.iface "@api", parsePrim p with
+     | some i, some pv =>
+       let pv := match pv with | .int n => Prim.flt (n * 1000) | x => x
+       (match (getRecord s.cfg i.opts { store := s.store } k T).1 with
+        | .error e => (s, errStr e)
+        | .ok r =>
+          (match setField r.form r.fields a pv with
+           | none => (s, "setfailed")
+           | some fs => s.exec "@api" (.put { r with fields := fs })))
      | _, _ => (s, "bad-op"))
   | ["flush", id] => s.exec id .flush
   | ["clear", id] => s.exec id .clear
